@@ -2,6 +2,7 @@ import ScpiVerif.Drv.Parse
 import ScpiVerif.Drv.ParseJudge
 import ScpiVerif.Drv.ParamJudge
 import ScpiVerif.Drv.StatusJudge
+import ScpiVerif.Drv.TestJudge
 namespace ScpiVerif.Drv
 open ScpiVerif.Ctx
 
@@ -17,7 +18,8 @@ def runParse (cfg : String) (inp : List String) (obs : List String) : Option Ver
   let residue := if mode == "P9" ∧ (obsK.find? (·.startsWith "K")) != (mo.find? (·.startsWith "K")) then ["C09.input_residue"] else []
   -- sessions with status snapshots (domain p21): C11 / C12 judged on the registers between the messages
   let status := if mode == "P" ∧ obs.any (·.startsWith "s") then judgeStatus cmds ((inp.getD 2 "").toNat?.getD 0) obs else []
-  let rej := (residue ++ judgeParse mode cmds inp obs ++ judgeParams cmds ra ++ (if mode == "P" then [] else judgeParams cmds rb) ++ status).eraseDups
+  let tests := if obs.any (fun t => t == "V0" || t == "V1") then judgeTests cmds ra else []
+  let rej := (residue ++ judgeParse mode cmds inp obs ++ judgeParams cmds ra ++ (if mode == "P" then [] else judgeParams cmds rb) ++ status ++ tests).eraseDups
   let tags := [mode] ++ parseTags obs ++ (if mode == "PU" then [if puConclusive inp then "unit_isolation_conclusive" else "unit_isolation_inconclusive"] else [])
   -- static-heap build: whether a text is stored depends on the heap (C20, domain H); the context model keeps every
   -- text, so the drained queue is compared by codes only in that configuration
